@@ -9,7 +9,9 @@ tie:     end-to-end ResourceFunctions whose layers (inline resource | ResourceTe
          items; every body sent is compared with the model's (whole body, decoded annotation, address)
 oracle:  every body scanned at all depths, its annotation parsed back (json.loads) and compared with the body,
          owner-reference lists before / after (the server's merge-patch applied) across owner / namespace combinations
-         and pre-existing ownerReferences lists
+         and pre-existing ownerReferences lists; lost creation races (absent at the load, a competitor's object with
+         owners of its own there when the POST arrives: 409) with "the live object" of a PATCH taken to be what the
+         server holds when the PATCH arrives (`lost_creation_race_leaves_winner_alone`)
 """
 from __future__ import annotations
 
@@ -148,6 +150,43 @@ def live_variants(r, prog: dict, post_body):
     return out
 
 
+# ------------------------------------------------------------------ a lost creation race
+
+def run_program(prog: dict) -> dict:
+    """`g.run_program`; with `prog["competitor"]` (an object) the run is a LOST CREATION RACE: the cluster is empty
+    when koreo loads the object, and somebody else's object — with owner references of its own — is there by the
+    time koreo's POST arrives, so the server answers 409.  For every call the cluster also remembers what it held
+    under the call's address when the call ARRIVED (`cluster.live_before[i]`): that, not what the load saw, is
+    "the live object" a PATCH must not take owner references from."""
+    theirs = prog.get("competitor")
+    if theirs is None:
+        return g.run_program(prog)
+    b = g.build(prog)
+    key = (b["apiVersion"], b["plural"], b["ns"] if prog["namespaced"] else None, b["name"])
+
+    def configure(c):
+        c.live_before = {}
+        state = {"arrived": False}
+
+        def arrive(i, method, at):
+            if method == "POST" and not state["arrived"]:
+                state["arrived"] = True
+                c.objects[key] = copy.deepcopy(theirs)
+            c.live_before[i] = copy.deepcopy(c.objects.get(at))
+            return 0
+        c.latency = arrive
+    b["obs"] = g.reconcile(b["spec"], objects=b["objects"], inputs=b["inputs"], owner=b["owner"],
+                           templates=b["templates"], value_functions=b["vfs"], configure=configure)
+    return b
+
+
+def lost_race_variants(r, prog: dict, post_body):
+    """the competitor's object for a lost creation race: (label, object) — shaped like the live objects of the
+    second pass (minimal | what we were about to create, drifted or not), owners of its own from REF_VARIANTS"""
+    label, obj = live_variants(r, prog, post_body)[0]
+    return [(label, obj)]
+
+
 # ------------------------------------------------------------------ one cached template, several creates
 
 SECOND_PARENT = {"apiVersion": "koreo.dev/v1", "kind": "Trigger", "name": "second-parent", "uid": "uid-parent-2",
@@ -242,7 +281,9 @@ def oracle(prog: dict, b: dict) -> tuple[str, str] | None:
     if prog.get("fault") is not None and len(muts) > 1:
         return "rejected-mutation", (f"the server answered the {muts[0]['method']} with {prog['fault']}, yet "
                                      f"{[e['method'] for e in muts[1:]]} followed")
-    for e in g.log_view(obs["cluster"]):
+    arrived_at = getattr(obs["cluster"], "live_before", None)     # call index -> what the server held at arrival
+    raw_log = [x for x in obs["cluster"].log if x["method"] != "LOOKUP"]
+    for e, raw in zip(g.log_view(obs["cluster"]), raw_log):
         if e["method"] not in ("POST", "PATCH"):
             continue
         body = e["body"]
@@ -276,7 +317,10 @@ def oracle(prog: dict, b: dict) -> tuple[str, str] | None:
             if has and not own and not listed:
                 return "create-owner", "created object carries the parent's reference although the function should not own it"
         else:
-            stored = prog["stored"]
+            # the live object is what the server holds when the PATCH arrives (in a plain run: what was loaded)
+            stored = arrived_at.get(raw["i"]) if arrived_at is not None else prog["stored"]
+            if stored is None:
+                continue        # nothing there to patch: the server answers 404, no owner list is touched
             merged = g.merge_patch(stored, body)
             before, after = g.owner_uids(stored), g.owner_uids(merged)
             if own and PARENT_UID not in before and PARENT_UID not in after:
@@ -346,7 +390,7 @@ def same_request(a, b) -> bool:
 def shrink(prog: dict, clause: str) -> dict:
     def still(p):
         try:
-            got = oracle(p, g.run_program(p))
+            got = oracle(p, run_program(p))
         except Exception:
             return False
         return got is not None and got[0] == clause
@@ -403,6 +447,8 @@ def examine(ck: Check, prog: dict, b: dict, ans, label: str):
     ck.count(f"pass:{label.split('/')[0]}")
     if "/" in label:
         ck.count(f"live-refs:{label.split('/')[1]}")
+    if prog.get("competitor") is not None and obs["prepared"]:
+        ck.count("lost-race:requests:" + ",".join(e["method"] for e in g.log_view(obs["cluster"])))
     if obs["raised"]:
         ck.count("raised")
     own = should_own(prog, b) if obs["prepared"] else None
@@ -531,7 +577,7 @@ def run(tier: str) -> int:
         q = copy.deepcopy(p)
         q["stored"] = None
         work.append(("absent", q))
-    built = [g.run_program(p) for _, p in work]
+    built = [run_program(p) for _, p in work]
     # second pass: live objects derived from what the first pass created
     second = []
     for (label, p), b in zip(list(work), list(built)):
@@ -546,7 +592,22 @@ def run(tier: str) -> int:
                 q["fault"] = r.choice((403, 403, 409, 422, 500))    # the server rejects the PATCH
             second.append((vlabel, q))
     work += second
-    built += [g.run_program(p) for _, p in second]
+    built += [run_program(p) for _, p in second]
+    # lost creation races: absent at the load, a competitor's object (owners of its own) there when the POST arrives
+    races = []
+    for (label, p), b in zip(list(work), list(built)):
+        if label != "absent" or p.get("bigField") or r.random() >= 0.4:
+            continue
+        req = g.impl_request(b["obs"]) if b["obs"]["prepared"] else None
+        if not (isinstance(req, dict) and req["method"] == "POST"):
+            continue
+        for vlabel, obj in lost_race_variants(r, p, req["body"]):
+            q = copy.deepcopy(p)
+            q["stored"] = None
+            q["competitor"] = obj
+            races.append((f"lost-race:{vlabel}", q))
+    work += races
+    built += [run_program(p) for _, p in races]
     # several functions rendering objects from ONE cached ResourceTemplate that lists owners of its own
     n_shared = 40 if tier == "quick" else 400
     for _ in range(n_shared):
@@ -576,7 +637,11 @@ def run(tier: str) -> int:
              "inside; ~15% of create overlays write metadata.ownerReferences (a co-owner) or a whole metadata map from inputs; ~12% of targets list owners themselves (the former F7 class, "
              "whose witness corpus/C08/target_owner_refs.json is replayed first), ~3% "
              "have unusable annotations; 20% of the PATCH-path runs have the server reject the mutating call (403, 409, 422, "
-             "500: nothing else may follow, the error propagates); three unusually large targets (a 262-300 KB string "
+             "500: nothing else may follow, the error propagates); 40% of the creating programs once more as a LOST CREATION "
+             "RACE (nothing there at the load; a competitor's object — minimal, or what we were about to create, drifted or "
+             "not, with any of the nine ownerReferences shapes — is there when the POST arrives and the server answers 409; "
+             "whatever is sent after that is judged against what the server holds at that moment: a PATCH must not drop "
+             "or alter the winner's owner references); three unusually large targets (a 262-300 KB string "
              "field); 40 sequences of 2-3 functions creating objects from ONE cached ResourceTemplate that lists owners "
              "of its own (owning / not owning, other parents, parents elsewhere; the cache is not reset in between; the "
              "created object's owner list must be the template's plus the parent iff owning and same namespace); non-trivial = the target carries directive keys and a POST or PATCH was sent; "
@@ -594,7 +659,7 @@ def replay(path: str) -> int:
             rc = rc or (1 if bad else 0)
             continue
         prog = v["case"]["prog"]
-        b = g.run_program(prog)
+        b = run_program(prog)
         bad = oracle(prog, b)
         q = g.impl_request(b["obs"]) if b["obs"]["prepared"] else None
         print("replay:", json.dumps(prog)[:600], "->", json.dumps(q, default=str)[:900], "::", bad)
@@ -602,7 +667,7 @@ def replay(path: str) -> int:
     for d in data.get("no_longer_checks", []):
         if d.get("kind") == "correspondence" and isinstance(d.get("case"), dict) and "prog" in d["case"]:
             prog = d["case"]["prog"]
-            b = g.run_program(prog)
+            b = run_program(prog)
             ans = LeanDriver("C08").ask([b["model"]])[0]
             want = model_request(ans, b, prog)
             mine = impl_request(b["obs"])
